@@ -197,6 +197,88 @@ Elements(a) ==
 (***************************************************************************)
 PredNonZero(a, e) == Trainable(a, e) /\ ~KeepAlive(a, e)
 
+(***************************************************************************)
+(* STRAIGHT-THROUGH GRADIENT OF THE DISCRETE COST.  In discrete mode the   *)
+(* effective sizes are sums of BINARISED thetas,                           *)
+(*     cout = sum_c B(theta_a[c]),   k = sum_j B(theta_b[j]) * B(theta_g[j])*)
+(* and the backward pass of the binariser hands the incoming gradient to   *)
+(* its input with a weight SteW(ste, x) that may depend on the input x:    *)
+(*   "identity"   1            (PITBinarizer as written)                   *)
+(*   "half"       1/2          (any positive constant: same support)       *)
+(*   "clipped"    [|x| <= 1]   (the 'clipped' straight-through estimator)  *)
+(*   "zeroabove"  [x <= 0.5]   (gradient only below the threshold)         *)
+(* With the un-normalised cumulative sums of the time masks               *)
+(*   d k / d|beta_i|  = sum_{j >= i} B(theta_g[j]) * SteW(theta_b[j])      *)
+(*   d k / d|gamma_p| = sum_{j : 2^p | x(j)} B(theta_b[j]) * SteW(theta_g[j])*)
+(*   d cout / d|alpha_c| = SteW(theta_a[c])            (0 for keep-alive)  *)
+(* (weights are delivered times 2 to stay integral).  Every smooth metric  *)
+(* has d cost / d size > 0 (all sizes >= 1 thanks to the keep-alive        *)
+(* elements), so the discrete cost gives element e a NON-ZERO gradient iff *)
+(* SteGrad(ste, a, A, e) > 0.  With "identity" tap K-1 (kept by both       *)
+(* keep-alive elements, reached by every beta_i and every gamma_p) always  *)
+(* contributes: the support is every non-keep-alive element, at EVERY      *)
+(* parameter value (CostDepsMC: InvDiscSteSupport / InvTimeSteSupport).    *)
+(***************************************************************************)
+SteW(ste, x) == CASE ste = "half"      -> 1
+                  [] ste = "clipped"   -> IF x <= MA!One THEN 2 ELSE 0
+                  [] ste = "zeroabove" -> IF x <= MA!Thr THEN 2 ELSE 0
+                  [] OTHER             -> 2                               \* "identity"
+\* b, g: 1-based magnitude sequences; i, p: 1-based element index
+SteGradBeta(ste, K, b, g, i) ==
+    IF i = K THEN 0
+    ELSE LET tb == MA!ThetaBeta(K, Z(b))  Bg == MA!BinGamma("last", K, Z(g)) IN
+         MA!SumF([j \in 0..(K - 1) |-> IF j >= i - 1 /\ j \in Bg THEN SteW(ste, tb[j]) ELSE 0], 0..(K - 1))
+SteGradGamma(ste, K, b, g, p) ==
+    IF p = MA!GLen(K) THEN 0
+    ELSE LET tg == MA!ThetaGamma("last", K, Z(g))  Bb == MA!BinBeta(K, Z(b)) IN
+         MA!SumF([j \in 0..(K - 1) |-> IF MA!X("last", K, j) % (2^(p - 1)) = 0 /\ j \in Bb THEN SteW(ste, tg[j]) ELSE 0],
+                 0..(K - 1))
+SteGradAlpha(ste, s, c) == IF c = Len(s) THEN 0 ELSE SteW(ste, s[c])
+SteGrad(ste, a, A, e) ==
+    CASE e[1] = "a" -> SteGradAlpha(ste, A.th[e[2]], e[3])
+      [] e[1] = "b" -> SteGradBeta(ste, KOf(a, e[2]), A.tb[e[2]], A.tg[e[2]], e[3])
+      [] OTHER      -> SteGradGamma(ste, KOf(a, e[2]), A.tb[e[2]], A.tg[e[2]], e[3])
+PredDiscNonZero(ste, a, A, e) == Trainable(a, e) /\ SteGrad(ste, a, A, e) > 0
+
+(***************************************************************************)
+(* WHICH ELEMENTS "RAISE THE DISCRETE METRIC".  The discrete cost is a     *)
+(* step function: at one parameter value a finite increase of an element   *)
+(* often changes nothing.  For the discrete cost the property's "element   *)
+(* whose increase raises the metric" is therefore read ON THE LATTICE:     *)
+(*   a time-mask element (beta_i / gamma_p) is RELEVANT iff there is a     *)
+(*   value of the other elements of the two time-mask vectors - searched   *)
+(*   over the four CORNER contexts  other betas all 0 | all 1  x  other    *)
+(*   gammas all 0 | all 1 - at which lifting the element from 0 to 1       *)
+(*   (across the threshold) changes MaskAlgebra!Kept;                      *)
+(*   a channel-mask element alpha_c is relevant iff it is not the          *)
+(*   keep-alive one (crossing always changes the alive set) and, for the   *)
+(*   rounded metric gap8_latency, lifting it from 0 to 1 raises the model's*)
+(*   discrete Cost with every other free element at 0 or every one at 1.   *)
+(* CostDepsMC checks that the corner contexts are complete (a change of    *)
+(* Kept in ANY context of the value domain implies one in a corner), that  *)
+(* relevant = non-keep-alive for every K <= 9, and that a changed kept /   *)
+(* alive set strictly raises the smooth discrete costs.                    *)
+(***************************************************************************)
+Fill(n, v) == [i \in 1..n |-> v]
+KeptOf(K, b, g) == MA!Kept("last", K, Z(b), Z(g))
+\* does lifting element (kind, i) from 0 to 1 change the kept set in the context (b, g)?
+TimeChangesAt(K, b, g, kind, i) ==
+    IF kind = "b" THEN KeptOf(K, [b EXCEPT ![i] = MA!One], g) # KeptOf(K, [b EXCEPT ![i] = 0], g)
+                  ELSE KeptOf(K, b, [g EXCEPT ![i] = MA!One]) # KeptOf(K, b, [g EXCEPT ![i] = 0])
+TimeRelevant(K, kind, i) ==
+    \E vb \in {0, MA!One}, vg \in {0, MA!One} : TimeChangesAt(K, Fill(K, vb), Fill(MA!GLen(K), vg), kind, i)
+CornerState(a, v) ==
+    [th |-> [n \in SearchLayers(a) |-> IF FreeLayer(a, n) THEN Fill(Ch(a, n), v) ELSE AllOne(Ch(a, n))],
+     tb |-> [n \in TimeLayers(a) |-> IF n \in TimeFree(a) THEN Fill(KOf(a, n), v) ELSE AllOne(KOf(a, n))],
+     tg |-> [n \in TimeLayers(a) |-> IF n \in TimeFree(a) THEN Fill(GOf(a, n), v) ELSE AllOne(GOf(a, n))]]
+AlphaRaisesModel(metric, a, sh, e) ==
+    \E v \in {0, MA!One} : LET X == CornerState(a, v) IN
+        Cost(metric, a, PutS(sh, X, e, MA!One), TRUE) > Cost(metric, a, PutS(sh, X, e, 0), TRUE)
+DiscRelevant(metric, a, sh, e) ==
+    /\ Trainable(a, e)
+    /\ IF e[1] = "a" THEN ~KeepAlive(a, e) /\ (Smooth(metric) \/ AlphaRaisesModel(metric, a, sh, e))
+                      ELSE TimeRelevant(KOf(a, e[2]), e[1], e[3])
+
 (* ------------------------------ mixing (MPS / SuperNet) ----------------- *)
 RECURSIVE SeqSum(_, _)
 SeqSum(s, i) == IF i > Len(s) THEN 0 ELSE s[i] + SeqSum(s, i + 1)
